@@ -597,6 +597,7 @@ def run(ctx: Ctx) -> None:
     _memo.rule_subject_drift(ctx, ['graphiq/circuit/circuit_dag.py', 'graphiq/circuit/circuit_base.py'])
     _memo.rule_isinstance_on_class(ctx, ['graphiq/circuit/circuit_dag.py', 'graphiq/circuit/circuit_base.py'])
     _memo.rule_zip_truncation(ctx, ['graphiq/circuit/circuit_dag.py', 'graphiq/circuit/circuit_base.py'])
+    _memo.rule_search_fallthrough(ctx, ['graphiq/circuit/circuit_dag.py', 'graphiq/circuit/circuit_base.py'])
     rule_own_dag(ctx)
     rule_nodekeys(ctx)
     rule_own_registers(ctx)
